@@ -1313,14 +1313,19 @@ def _run(ctx):
     ctx.log("known-finding hits: %r" % (getattr(ctx, "known_count", {}),))
     ctx.cov["rule"] = (
         "EOS: bag on the grid psi in {.2,.4,.5,.6,.7,.8,.9,.95} x Tn/Tc in {.5,.6,.7,.8,.9,.95} "
-        "plus Tn >= Tc and random points; two-step toy model (fixed + random couplings); "
-        "template EOS (random alpha_n, psi_n, cs2, cb2; Tn in {0.01, 1, 100}); default solver "
-        "tolerances 1e-6/1e-10. Interior results: entropy, energy/momentum flux, Tn boundary "
-        "(independent integrator) at the returned velocity, entropy of findMatching there. "
-        "Sentinels: mismatch scanned at %d velocities over [max(vMin+%g, 0.05), vJ-%g] (runaway)"
-        " / evaluated at max(vMin+%g, 0.05) (static). Parameter points whose mismatch at the decisive end "
-        "is below %g are counted as near-threshold and not judged. distinct = distinct (EOS, "
-        "tolerances)." % (ctx.n(64, 512), MARGIN_V, MARGIN_TOP, MARGIN_V, MARGIN_E))
+        "plus Tn >= Tc, strong supercooling Tn/Tc 0.3-0.4 and random points; two-step toy model; "
+        "template EOS (Tn in {0.01, 1, 100}); solver parameters (10, 0.01, 1e-6, 1e-10) = "
+        "ConfigHydrodynamics defaults (AST fact) plus four other (tmax,tmin,rtol,atol) sets and "
+        "integer-typed inputs. The judge uses the spec's analytic EOS, its own vJ and vMin and "
+        "the independent integrator; a matching is valid iff it conserves the fluxes. Interior: "
+        "entropy, fluxes, Tn boundary, entropy of findMatching, bracket orientation. Sentinels: "
+        "mismatch scanned at %d velocities over [max(vMin+%g, 0.05), vJ-%g] (runaway; negative "
+        "points confirmed by the integrator) / evaluated at max(vMin+%g, 0.05) (static). "
+        "|mismatch| < %g at the decisive end: near-threshold, not judged. Families: model.Tnucl "
+        "changed after construction, manager re-setup, EOS through WallGoManager."
+        "_initHydrodynamics, second call on one object. Unjudged inputs fail closed. distinct "
+        "= distinct (EOS, parameters, family)." % (
+            ctx.n(64, 512), MARGIN_V, MARGIN_TOP, MARGIN_V, MARGIN_E))
     ctx.assumptions += [
         "scipy root(hybr) returns a zero of the generated residual when Hydrodynamics.success "
         "is True (validated: fluxes at the returned matching)",
